@@ -100,6 +100,8 @@ def run(pid, tier, seed, args, t0):
         frs.append(fr)
         if fr.error:
             undecided.append('%s: %s' % (fr.qual, fr.error))
+        for w in pk.get('warnings', []):
+            undecided.append('%s: %s' % (fr.qual, w))
         other_props += pk['foreign']
         for od in pk['obligations']:
             o = ObSummary(od, fr)
@@ -355,7 +357,7 @@ def _verify_worker(job):
     s = z3.Solver()
     s.set('timeout', 5000)
     s.add(*getattr(fr, 'pre', []))
-    return {'qual': q, 'error': fr.error, 'paths': fr.paths, 'exits': fr.exits, 'inlined': fr.inlined,
+    return {'qual': q, 'error': fr.error, 'warnings': getattr(fr, 'warnings', []), 'paths': fr.paths, 'exits': fr.exits, 'inlined': fr.inlined,
             'used_contracts': fr.used_contracts, 'meta': fr.fi.describe() if fr.fi is not None else None,
             'seconds': fr.seconds, 'foreign': nforeign, 'pre_sat': str(s.check()) if not fr.error else 'n/a',
             'has_fi': fr.fi is not None,
